@@ -5,7 +5,7 @@ import re
 import vcheck
 
 PRELUDE = """From Coq Require Import List NArith String.
-From GV Require Import Base.Ints Gen.Math Gen.Kernel Model.Mirror Model.MirrorObs %s.
+From GV Require Import Base.Ints Base.Tr Gen.Math Gen.Kernel Model.Mirror Model.MirrorObs %s.
 Import ListNotations. Local Open Scope N_scope.
 """
 
@@ -51,17 +51,47 @@ def case_defs(c):
     steps = []
     for (op, res, obs) in c["steps"]:
         if obs not in names:
-            names[obs] = "o%d_%d" % (c["idx"], len(names))
+            names[obs] = "ob%d_%d" % (c["idx"], len(names))
             out.append("Definition %s : tr := %s." % (names[obs], obs))
         steps.append("(%s, %d, %s)" % (op, res, names[obs]))
     out.append("Definition case_%d := (init_state %d %s, [%s])." % (c["idx"], c["init"][0], c["init"][1], ";\n".join(steps)))
     return "\n".join(out) + "\n"
 
 
-def run_harness(c, binary, seed, ncases, nops, extra=()):
-    rc, out, err = c.run_bin(binary, ["-seed", str(seed), "-cases", str(ncases), "-ops", str(nops)] + list(extra), timeout=1200)
-    cases, stats = parse_cases(out)
-    return rc, cases, stats, err
+def run_harness(c, binary, seed, ncases, nops, extra=(), batch=5, workers=6):
+    """Runs the harness in several processes (a kernel panic kills only its own batch).
+    Returns (cases renumbered globally, summed stats, crash list)."""
+    from concurrent.futures import ThreadPoolExecutor
+    nb = (ncases + batch - 1) // batch
+
+    def work(b):
+        sd = (seed * 1000003 + b * 7919 + 1) & 0xFFFFFFFFFFFF
+        rc, out, err = c.run_bin(binary, ["-seed", str(sd), "-cases", str(min(batch, ncases - b * batch)), "-ops", str(nops)] + list(extra), timeout=1200)
+        cs, st = parse_cases(out)
+        return b, sd, rc, cs, st, err
+
+    cases, stats, crashes = [], {}, []
+    with ThreadPoolExecutor(max_workers=workers) as ex:
+        for b, sd, rc, cs, st, err in ex.map(work, range(nb)):
+            for k, v in st.items():
+                stats[k] = stats.get(k, 0) + v
+            for c_ in cs:
+                old = c_["idx"]
+                c_["idx"] = len(cases)
+                c_["batch_seed"] = sd
+                c_["batch_idx"] = old
+                # interned names carry the per-process case index: make them globally unique
+                ren = {n: "g%d_%s" % (c_["idx"], n) for n, _ in c_["bdefs"]}
+                pat = re.compile(r"\bb%d_\d+\b" % old)
+                sub = lambda t: pat.sub(lambda m: ren.get(m.group(0), m.group(0)), t)
+                c_["bdefs"] = [(ren[n], b_) for n, b_ in c_["bdefs"]]
+                c_["steps"] = [(sub(op), res, sub(obs)) for op, res, obs in c_["steps"]]
+                c_["init"] = (c_["init"][0], sub(c_["init"][1])) if c_["init"] else None
+                cases.append(c_)
+            if rc != 0 or any(c_["panic"] for c_ in cs):
+                crashes.append({"batch_seed": sd, "rc": rc, "stderr": err[-1500:],
+                                "case": cs[-1]["idx"] if cs else None})
+    return cases, stats, crashes
 
 
 def eval_cases(c, name, cases, extra_import="", extra_defs="", per_case_exprs=None, shard=6, workers=6):
@@ -177,3 +207,112 @@ def shrink_case(c, case, fails, max_rounds=40):
     """Greedy shrinking: drop trailing steps after the first failing one is handled by the caller;
     here we just cut the case at the failing step."""
     return case
+
+
+# ---------------------------------------------------------------- shared check body
+MON_IMPORT = "Monitors.MirrorM"
+MON_EXPRS = {
+    # name -> Gallina expression over @CASE@ returning option nat (index of the first bad step) or bool
+    "c05": "first_bad c05_obs_ok 0 (obs_of (snd @CASE@))",
+    "noop": "noop_trace_bad 0 (fst @CASE@) (observe (fst @CASE@)) (snd @CASE@)",
+    "c04": "c04_trace_ok (k_init_h (fst @CASE@)) None (obs_of (snd @CASE@))",
+    "c07": "first_bad (c07_obs_ok (let v := k_init_vs (fst @CASE@) in TL [TB (vs_pkh v); TB (vs_vph v); TL (map TN (vs_keys v)); TL (map TN (vs_pows v))])) 0 (obs_of (snd @CASE@))",
+    "c01": "first_bad (c01_obs_ok (collect_vals [] (obs_of (snd @CASE@)))) 0 (obs_of (snd @CASE@))",
+}
+
+
+def mon_failed(val):
+    return val not in ("None", "true")
+
+
+def mirror_check(c, prop_file, monitors, what, quick=(40, 30), thorough=(600, 40)):
+    """Common body of the mirror-kernel checks. monitors: names from MON_EXPRS that decide this property."""
+    c.trusted += [
+        "translator /verif/translate for kState.FindView and the result enumerations (Gen/Kernel.v), thresholds (Gen/Math.v)",
+        "hand-written model coq/Model/Mirror.v of mirror.go + tmi/kernel.go + tmi/kstate.go (sequential delivery), tied to "
+        "the code by differential correspondence on every run: harness/mirror drives the REAL tmmirror.Mirror (verif-tagged "
+        "re-export) with real ed25519 keys, SimpleHashScheme, SimpleSignatureScheme, tmmemstore stores",
+        "ideal-signature convention (DESIGN 3): a signature is identified with (signer, kind, height, round, hash); "
+        "sign-bytes injectivity is C15's theorem, EUF-CMA of ed25519 is assumed",
+    ]
+    c.assumes += ["inputs are delivered sequentially (one Handle* call at a time); concurrent callers are outside this model",
+                  "hash collisions among generated headers / validator sets do not occur (vs_ok / hd_ok flags set by construction)"]
+    c.grep_gate()
+    ncases, nops = quick if c.tier == "quick" else thorough
+    tok, tlog = c.translate(only=["Gen/Kernel.v", "Gen/Math.v"])
+    proved = False
+    if not tok:
+        c.obligations.append("translate Gen/Kernel.v")
+        c.broken = {"file": "translate", "log": tlog[-800:]}
+    else:
+        proved = c.prove(prop_file)
+    binary, blog = c.go_build("mirror")
+    if binary is None:
+        c.fail_obligation("harness-build", blog[-1500:])
+        c.finish()
+    if c.replay:
+        import json
+        rp = json.load(open(c.replay))
+        seeds = [(rp.get("batch_seed"), rp.get("batch_cases", 5), rp.get("ops", nops))]
+    cases, stats, crashes = run_harness(c, binary, c.seed, ncases, nops)
+    model_ok = tok
+    if tok:
+        okm, mlog = c.coq_make(["Model/MirrorObs.vo", "Monitors/MirrorM.vo"])
+        model_ok = okm
+        if not okm:
+            c.fail_obligation("model-build", mlog[-1500:])
+    usable = [k for k in cases if k["steps"] and k["init"]]
+    results = {}
+    if model_ok and usable:
+        exprs = {m: MON_EXPRS[m] for m in monitors}
+        results, elog = eval_cases(c, c.pid.lower() + "_cases", usable, extra_import=MON_IMPORT, per_case_exprs=exprs)
+        if results is None:
+            c.fail_obligation("cases-eval", elog[-2000:])
+            results = {}
+    n_steps = sum(len(k["steps"]) for k in usable)
+    corr_bad, mon_bad = [], []
+    for k in usable:
+        r = results.get(k["idx"])
+        if not r:
+            continue
+        for m in monitors:
+            if mon_failed(r["mon"].get(m, "None")):
+                mon_bad.append((k, m, r["mon"][m]))
+        if r["corr"] is not None:
+            corr_bad.append((k, r["corr"]))
+    for k, m, val in mon_bad[:3]:
+        mm = re.search(r"Some\s+(\d+)", val)
+        step = int(mm.group(1)) if mm else None
+        upto = (step + 1) if step is not None else len(k["steps"])
+        c.report("mirror-%s-monitor" % m,
+                 "%s: monitor %s fails on the implementation's observations (case seed %d, step %s)" % (what, m, k["seed"], step),
+                 {"batch_seed": k["batch_seed"], "batch_case": k["batch_idx"], "ops": len(k["steps"]), "failing_step": step, "monitor": m,
+                  "monitor_value": val, "steps": [{"op": op, "impl_result": res} for op, res, _ in k["steps"][:upto]],
+                  "impl_observation_at_failure": k["steps"][upto - 1][2] if k["steps"] else None,
+                  "how": "bin/h_mirror -seed %d -cases %d -ops %d (case %d)" % (k["batch_seed"], k["batch_idx"] + 1, len(k["steps"]), k["batch_idx"])})
+    if corr_bad and not mon_bad:
+        k, corr = corr_bad[0]
+        c.fail_obligation("correspondence Model/Mirror.v vs real mirror",
+                          explain_mismatch(k, corr)[:3000],
+                          {"batch_seed": k["batch_seed"], "batch_case": k["batch_idx"], "disagreeing_cases": len(corr_bad),
+                           "steps": [{"op": op, "impl_result": res} for op, res, _ in k["steps"]][:60]})
+    if not proved and not mon_bad:
+        b = getattr(c, "broken", {"file": "?", "log": ""})
+        c.fail_obligation("Properties/%s.v (%s)" % (prop_file, b["file"]), b["log"],
+                          {"searched_cases": len(usable), "searched_steps": n_steps})
+    distinct = len(set((op, res) for k in usable for op, res, _ in k["steps"]))
+    c.samples = [{"case_seed": k["seed"], "first_steps": [{"op": op[:400], "result": res} for op, res, _ in k["steps"][:2]]} for k in usable[:3]]
+    c.coverage.update({
+        "evaluations": n_steps,
+        "distinct_nontrivial": distinct,
+        "rule": "histories generated by harness/mirror from one seed (honest progress, nil/next-round/future/old votes, equivocation, "
+                "junk / wrong-key / wrong-kind / wrong-round / out-of-range / wrong-length key ids, forged validator lists, bad hashes, "
+                "wrong predecessor, tampered commit proofs, duplicates, validator-set change every height); one evaluation = one "
+                "delivered message; distinct_nontrivial = distinct (message, result) pairs",
+        "traces_validated_against_impl": len(usable),
+        "cases": len(cases), "harness_crashes": len(crashes),
+        "correspondence_disagreements": len(corr_bad),
+        "monitor_failures_on_impl": len(mon_bad),
+        "input_distribution": stats,
+    })
+    return cases, crashes, results
